@@ -142,9 +142,35 @@ func (r *vStepResult) assertNonce() {
 	vAssert(st.GetNonce(r.w.S) == r.tx.AccountNonce && st.GetEpoch(r.w.S) == ge, "[C06] nonce and epoch of the sender advance to the transaction's")
 }
 
+// assertRegistry (C10.c): the stored validator registry (identity state) agrees with the identity ledger for every
+// identity the transaction touched, given that it did before: registered as validated exactly when the status
+// is Newbie, Verified or Human.
+func (r *vStepResult) assertRegistry() {
+	st, ist := r.w.App.State, r.w.App.IdentityState
+	for i, a := range r.addrs {
+		k := byte(i + 1)
+		if !state.VL.IdDone[k] {
+			continue
+		}
+		knownBefore := state.VL.ApDone[k]
+		postRegistered := ist.IsValidated(a)
+		preRegistered := postRegistered // an entry the transaction never looked at is unchanged
+		if knownBefore {
+			preRegistered = vAnd(state.VL.PreApPresent[k], state.VL.PreApproved[k].Validated)
+		}
+		preStatus := state.Undefined
+		if state.VL.PreIdPresent[k] {
+			preStatus = state.VL.PreState[k]
+		}
+		vAssume(preRegistered == preStatus.NewbieOrBetter())
+		vAssert(postRegistered == st.GetIdentityState(a).NewbieOrBetter(), "[C10] an address is registered as validated exactly when its identity status is Newbie, Verified or Human")
+	}
+}
+
 func vStepAll(t types.TxType) {
 	r := vStep(t)
 	if r.applied {
+		r.assertRegistry()
 		r.assertNonce()
 		r.assertInvariant()
 		r.assertNoMint()
@@ -156,6 +182,7 @@ func vStepAll(t types.TxType) {
 //verif:obligation C04.a.send tier=quick use=world bounds=world(S,T,G,F),in-block,arbitrary-tx-fields covers=applied,rejected
 //verif:obligation C05.a.send tier=quick use=world bounds=world(S,T,G,F),in-block,arbitrary-tx-fields covers=applied,rejected
 //verif:obligation C06.a.send tier=quick use=world bounds=world(S,T,G,F),in-block,arbitrary-tx-fields covers=applied,rejected
+//verif:obligation C10.c.send tier=quick use=world bounds=world(S,T,G,F),in-block,arbitrary-tx-fields covers=applied,rejected
 //verif:obligation C12.b.send tier=quick use=world bounds=world(S,T,G,F),in-block,arbitrary-tx-fields covers=applied,rejected
 // One step with a SendTx: real per-type validator + real applyTxOnState from an arbitrary world. Applied =>
 // nonce/epoch lemma (C06), no negative balance/stake part (C04), total of balances+stakes not increased
@@ -166,6 +193,7 @@ func H_Step_SendTx() { vStepAll(types.SendTx) }
 //verif:obligation C04.a.activation tier=quick use=world bounds=world(S,T,G,F),in-block,arbitrary-tx-fields covers=applied,rejected
 //verif:obligation C05.a.activation tier=thorough use=world bounds=world(S,T,G,F),in-block,arbitrary-tx-fields covers=applied,rejected
 //verif:obligation C06.a.activation tier=thorough use=world bounds=world(S,T,G,F),in-block,arbitrary-tx-fields covers=applied,rejected
+//verif:obligation C10.c.activation tier=thorough use=world bounds=world(S,T,G,F),in-block,arbitrary-tx-fields covers=applied,rejected
 //verif:obligation C12.b.activation tier=quick use=world bounds=world(S,T,G,F),in-block,arbitrary-tx-fields covers=applied,rejected
 // One step with a ActivationTx: real per-type validator + real applyTxOnState from an arbitrary world. Applied =>
 // nonce/epoch lemma (C06), no negative balance/stake part (C04), total of balances+stakes not increased
@@ -176,6 +204,7 @@ func H_Step_ActivationTx() { vStepAll(types.ActivationTx) }
 //verif:obligation C04.a.invite tier=quick use=world bounds=world(S,T,G,F),in-block,arbitrary-tx-fields covers=applied,rejected
 //verif:obligation C05.a.invite tier=quick use=world bounds=world(S,T,G,F),in-block,arbitrary-tx-fields covers=applied,rejected
 //verif:obligation C06.a.invite tier=quick use=world bounds=world(S,T,G,F),in-block,arbitrary-tx-fields covers=applied,rejected
+//verif:obligation C10.c.invite tier=thorough use=world bounds=world(S,T,G,F),in-block,arbitrary-tx-fields covers=applied,rejected
 //verif:obligation C12.b.invite tier=quick use=world bounds=world(S,T,G,F),in-block,arbitrary-tx-fields covers=applied,rejected
 // One step with a InviteTx: real per-type validator + real applyTxOnState from an arbitrary world. Applied =>
 // nonce/epoch lemma (C06), no negative balance/stake part (C04), total of balances+stakes not increased
@@ -186,6 +215,7 @@ func H_Step_InviteTx() { vStepAll(types.InviteTx) }
 //verif:obligation C04.a.kill tier=quick use=world bounds=world(S,T,G,F),in-block,arbitrary-tx-fields covers=applied,rejected
 //verif:obligation C05.a.kill tier=quick use=world bounds=world(S,T,G,F),in-block,arbitrary-tx-fields covers=applied,rejected
 //verif:obligation C06.a.kill tier=quick use=world bounds=world(S,T,G,F),in-block,arbitrary-tx-fields covers=applied,rejected
+//verif:obligation C10.c.kill tier=quick use=world bounds=world(S,T,G,F),in-block,arbitrary-tx-fields covers=applied,rejected
 //verif:obligation C12.b.kill tier=quick use=world bounds=world(S,T,G,F),in-block,arbitrary-tx-fields covers=applied,rejected
 // One step with a KillTx: real per-type validator + real applyTxOnState from an arbitrary world. Applied =>
 // nonce/epoch lemma (C06), no negative balance/stake part (C04), total of balances+stakes not increased
@@ -196,6 +226,7 @@ func H_Step_KillTx() { vStepAll(types.KillTx) }
 //verif:obligation C04.a.submitflip tier=quick use=world tv=off bounds=world(S,T,G,F),in-block,arbitrary-tx-fields covers=applied,rejected
 //verif:obligation C05.a.submitflip tier=quick use=world tv=off bounds=world(S,T,G,F),in-block,arbitrary-tx-fields covers=applied,rejected
 //verif:obligation C06.a.submitflip tier=quick use=world tv=off bounds=world(S,T,G,F),in-block,arbitrary-tx-fields covers=applied,rejected
+//verif:obligation C10.c.submitflip tier=thorough use=world tv=off bounds=world(S,T,G,F),in-block,arbitrary-tx-fields covers=applied,rejected
 //verif:obligation C12.b.submitflip tier=quick use=world tv=off bounds=world(S,T,G,F),in-block,arbitrary-tx-fields covers=applied,rejected
 // One step with a SubmitFlipTx: real per-type validator + real applyTxOnState from an arbitrary world. Applied =>
 // nonce/epoch lemma (C06), no negative balance/stake part (C04), total of balances+stakes not increased
@@ -206,6 +237,7 @@ func H_Step_SubmitFlipTx() { vStepAll(types.SubmitFlipTx) }
 //verif:obligation C04.a.answershash tier=quick use=world bounds=world(S,T,G,F),in-block,arbitrary-tx-fields covers=applied,rejected
 //verif:obligation C05.a.answershash tier=quick use=world bounds=world(S,T,G,F),in-block,arbitrary-tx-fields covers=applied,rejected
 //verif:obligation C06.a.answershash tier=quick use=world bounds=world(S,T,G,F),in-block,arbitrary-tx-fields covers=applied,rejected
+//verif:obligation C10.c.answershash tier=thorough use=world bounds=world(S,T,G,F),in-block,arbitrary-tx-fields covers=applied,rejected
 //verif:obligation C12.b.answershash tier=quick use=world bounds=world(S,T,G,F),in-block,arbitrary-tx-fields covers=applied,rejected
 // One step with a SubmitAnswersHashTx: real per-type validator + real applyTxOnState from an arbitrary world. Applied =>
 // nonce/epoch lemma (C06), no negative balance/stake part (C04), total of balances+stakes not increased
@@ -216,6 +248,7 @@ func H_Step_SubmitAnswersHashTx() { vStepAll(types.SubmitAnswersHashTx) }
 //verif:obligation C04.a.onlinestatus tier=quick use=world bounds=world(S,T,G,F),in-block,arbitrary-tx-fields covers=applied,rejected
 //verif:obligation C05.a.onlinestatus tier=quick use=world bounds=world(S,T,G,F),in-block,arbitrary-tx-fields covers=applied,rejected
 //verif:obligation C06.a.onlinestatus tier=quick use=world bounds=world(S,T,G,F),in-block,arbitrary-tx-fields covers=applied,rejected
+//verif:obligation C10.c.onlinestatus tier=quick use=world bounds=world(S,T,G,F),in-block,arbitrary-tx-fields covers=applied,rejected
 //verif:obligation C12.b.onlinestatus tier=quick use=world bounds=world(S,T,G,F),in-block,arbitrary-tx-fields covers=applied,rejected
 // One step with a OnlineStatusTx: real per-type validator + real applyTxOnState from an arbitrary world. Applied =>
 // nonce/epoch lemma (C06), no negative balance/stake part (C04), total of balances+stakes not increased
@@ -226,6 +259,7 @@ func H_Step_OnlineStatusTx() { vStepAll(types.OnlineStatusTx) }
 //verif:obligation C04.a.killinvitee tier=thorough use=world bounds=world(S,T,G,F),in-block,arbitrary-tx-fields covers=applied,rejected
 //verif:obligation C05.a.killinvitee tier=quick use=world bounds=world(S,T,G,F),in-block,arbitrary-tx-fields covers=applied,rejected
 //verif:obligation C06.a.killinvitee tier=thorough use=world bounds=world(S,T,G,F),in-block,arbitrary-tx-fields covers=applied,rejected
+//verif:obligation C10.c.killinvitee tier=thorough use=world bounds=world(S,T,G,F),in-block,arbitrary-tx-fields covers=applied,rejected
 //verif:obligation C12.b.killinvitee tier=thorough use=world bounds=world(S,T,G,F),in-block,arbitrary-tx-fields covers=applied,rejected
 // One step with a KillInviteeTx: real per-type validator + real applyTxOnState from an arbitrary world. Applied =>
 // nonce/epoch lemma (C06), no negative balance/stake part (C04), total of balances+stakes not increased
@@ -236,6 +270,7 @@ func H_Step_KillInviteeTx() { vStepAll(types.KillInviteeTx) }
 //verif:obligation C04.a.changegod tier=quick use=world bounds=world(S,T,G,F),in-block,arbitrary-tx-fields covers=applied,rejected
 //verif:obligation C05.a.changegod tier=quick use=world bounds=world(S,T,G,F),in-block,arbitrary-tx-fields covers=applied,rejected
 //verif:obligation C06.a.changegod tier=quick use=world bounds=world(S,T,G,F),in-block,arbitrary-tx-fields covers=applied,rejected
+//verif:obligation C10.c.changegod tier=thorough use=world bounds=world(S,T,G,F),in-block,arbitrary-tx-fields covers=applied,rejected
 //verif:obligation C12.b.changegod tier=quick use=world bounds=world(S,T,G,F),in-block,arbitrary-tx-fields covers=applied,rejected
 // One step with a ChangeGodAddressTx: real per-type validator + real applyTxOnState from an arbitrary world. Applied =>
 // nonce/epoch lemma (C06), no negative balance/stake part (C04), total of balances+stakes not increased
@@ -246,6 +281,7 @@ func H_Step_ChangeGodAddressTx() { vStepAll(types.ChangeGodAddressTx) }
 //verif:obligation C04.a.burn tier=quick use=world bounds=world(S,T,G,F),in-block,arbitrary-tx-fields covers=applied,rejected
 //verif:obligation C05.a.burn tier=quick use=world bounds=world(S,T,G,F),in-block,arbitrary-tx-fields covers=applied,rejected
 //verif:obligation C06.a.burn tier=quick use=world bounds=world(S,T,G,F),in-block,arbitrary-tx-fields covers=applied,rejected
+//verif:obligation C10.c.burn tier=thorough use=world bounds=world(S,T,G,F),in-block,arbitrary-tx-fields covers=applied,rejected
 //verif:obligation C12.b.burn tier=quick use=world bounds=world(S,T,G,F),in-block,arbitrary-tx-fields covers=applied,rejected
 // One step with a BurnTx: real per-type validator + real applyTxOnState from an arbitrary world. Applied =>
 // nonce/epoch lemma (C06), no negative balance/stake part (C04), total of balances+stakes not increased
@@ -256,6 +292,7 @@ func H_Step_BurnTx() { vStepAll(types.BurnTx) }
 //verif:obligation C04.a.changeprofile tier=quick use=world bounds=world(S,T,G,F),in-block,arbitrary-tx-fields covers=applied,rejected
 //verif:obligation C05.a.changeprofile tier=quick use=world bounds=world(S,T,G,F),in-block,arbitrary-tx-fields covers=applied,rejected
 //verif:obligation C06.a.changeprofile tier=quick use=world bounds=world(S,T,G,F),in-block,arbitrary-tx-fields covers=applied,rejected
+//verif:obligation C10.c.changeprofile tier=thorough use=world bounds=world(S,T,G,F),in-block,arbitrary-tx-fields covers=applied,rejected
 //verif:obligation C12.b.changeprofile tier=quick use=world bounds=world(S,T,G,F),in-block,arbitrary-tx-fields covers=applied,rejected
 // One step with a ChangeProfileTx: real per-type validator + real applyTxOnState from an arbitrary world. Applied =>
 // nonce/epoch lemma (C06), no negative balance/stake part (C04), total of balances+stakes not increased
@@ -266,6 +303,7 @@ func H_Step_ChangeProfileTx() { vStepAll(types.ChangeProfileTx) }
 //verif:obligation C04.a.deleteflip tier=quick use=world bounds=world(S,T,G,F),in-block,arbitrary-tx-fields covers=applied,rejected
 //verif:obligation C05.a.deleteflip tier=quick use=world bounds=world(S,T,G,F),in-block,arbitrary-tx-fields covers=applied,rejected
 //verif:obligation C06.a.deleteflip tier=quick use=world bounds=world(S,T,G,F),in-block,arbitrary-tx-fields covers=applied,rejected
+//verif:obligation C10.c.deleteflip tier=thorough use=world bounds=world(S,T,G,F),in-block,arbitrary-tx-fields covers=applied,rejected
 //verif:obligation C12.b.deleteflip tier=quick use=world bounds=world(S,T,G,F),in-block,arbitrary-tx-fields covers=applied,rejected
 // One step with a DeleteFlipTx: real per-type validator + real applyTxOnState from an arbitrary world. Applied =>
 // nonce/epoch lemma (C06), no negative balance/stake part (C04), total of balances+stakes not increased
@@ -276,6 +314,7 @@ func H_Step_DeleteFlipTx() { vStepAll(types.DeleteFlipTx) }
 //verif:obligation C04.a.delegate tier=quick use=world bounds=world(S,T,G,F),in-block,arbitrary-tx-fields covers=applied,rejected
 //verif:obligation C05.a.delegate tier=quick use=world bounds=world(S,T,G,F),in-block,arbitrary-tx-fields covers=applied,rejected
 //verif:obligation C06.a.delegate tier=quick use=world bounds=world(S,T,G,F),in-block,arbitrary-tx-fields covers=applied,rejected
+//verif:obligation C10.c.delegate tier=quick use=world bounds=world(S,T,G,F),in-block,arbitrary-tx-fields covers=applied,rejected
 //verif:obligation C12.b.delegate tier=quick use=world bounds=world(S,T,G,F),in-block,arbitrary-tx-fields covers=applied,rejected
 // One step with a DelegateTx: real per-type validator + real applyTxOnState from an arbitrary world. Applied =>
 // nonce/epoch lemma (C06), no negative balance/stake part (C04), total of balances+stakes not increased
@@ -286,6 +325,7 @@ func H_Step_DelegateTx() { vStepAll(types.DelegateTx) }
 //verif:obligation C04.a.undelegate tier=quick use=world bounds=world(S,T,G,F),in-block,arbitrary-tx-fields covers=applied,rejected
 //verif:obligation C05.a.undelegate tier=quick use=world bounds=world(S,T,G,F),in-block,arbitrary-tx-fields covers=applied,rejected
 //verif:obligation C06.a.undelegate tier=quick use=world bounds=world(S,T,G,F),in-block,arbitrary-tx-fields covers=applied,rejected
+//verif:obligation C10.c.undelegate tier=quick use=world bounds=world(S,T,G,F),in-block,arbitrary-tx-fields covers=applied,rejected
 //verif:obligation C12.b.undelegate tier=quick use=world bounds=world(S,T,G,F),in-block,arbitrary-tx-fields covers=applied,rejected
 // One step with a UndelegateTx: real per-type validator + real applyTxOnState from an arbitrary world. Applied =>
 // nonce/epoch lemma (C06), no negative balance/stake part (C04), total of balances+stakes not increased
@@ -296,6 +336,7 @@ func H_Step_UndelegateTx() { vStepAll(types.UndelegateTx) }
 //verif:obligation C04.a.killdelegator tier=quick use=world bounds=world(S,T,G,F),in-block,arbitrary-tx-fields covers=applied,rejected
 //verif:obligation C05.a.killdelegator tier=quick use=world bounds=world(S,T,G,F),in-block,arbitrary-tx-fields covers=applied,rejected
 //verif:obligation C06.a.killdelegator tier=thorough use=world bounds=world(S,T,G,F),in-block,arbitrary-tx-fields covers=applied,rejected
+//verif:obligation C10.c.killdelegator tier=thorough use=world bounds=world(S,T,G,F),in-block,arbitrary-tx-fields covers=applied,rejected
 //verif:obligation C12.b.killdelegator tier=thorough use=world bounds=world(S,T,G,F),in-block,arbitrary-tx-fields covers=applied,rejected
 // One step with a KillDelegatorTx: real per-type validator + real applyTxOnState from an arbitrary world. Applied =>
 // nonce/epoch lemma (C06), no negative balance/stake part (C04), total of balances+stakes not increased
@@ -306,6 +347,7 @@ func H_Step_KillDelegatorTx() { vStepAll(types.KillDelegatorTx) }
 //verif:obligation C04.a.storetoipfs tier=quick use=world tv=off bounds=world(S,T,G,F),in-block,arbitrary-tx-fields covers=applied,rejected
 //verif:obligation C05.a.storetoipfs tier=quick use=world tv=off bounds=world(S,T,G,F),in-block,arbitrary-tx-fields covers=applied,rejected
 //verif:obligation C06.a.storetoipfs tier=quick use=world tv=off bounds=world(S,T,G,F),in-block,arbitrary-tx-fields covers=applied,rejected
+//verif:obligation C10.c.storetoipfs tier=thorough use=world tv=off bounds=world(S,T,G,F),in-block,arbitrary-tx-fields covers=applied,rejected
 //verif:obligation C12.b.storetoipfs tier=quick use=world tv=off bounds=world(S,T,G,F),in-block,arbitrary-tx-fields covers=applied,rejected
 // One step with a StoreToIpfsTx: real per-type validator + real applyTxOnState from an arbitrary world. Applied =>
 // nonce/epoch lemma (C06), no negative balance/stake part (C04), total of balances+stakes not increased
@@ -316,6 +358,7 @@ func H_Step_StoreToIpfsTx() { vStepAll(types.StoreToIpfsTx) }
 //verif:obligation C04.a.replenish tier=quick use=world bounds=world(S,T,G,F),in-block,arbitrary-tx-fields covers=applied,rejected
 //verif:obligation C05.a.replenish tier=quick use=world bounds=world(S,T,G,F),in-block,arbitrary-tx-fields covers=applied,rejected
 //verif:obligation C06.a.replenish tier=quick use=world bounds=world(S,T,G,F),in-block,arbitrary-tx-fields covers=applied,rejected
+//verif:obligation C10.c.replenish tier=thorough use=world bounds=world(S,T,G,F),in-block,arbitrary-tx-fields covers=applied,rejected
 //verif:obligation C12.b.replenish tier=quick use=world bounds=world(S,T,G,F),in-block,arbitrary-tx-fields covers=applied,rejected
 // One step with a ReplenishStakeTx: real per-type validator + real applyTxOnState from an arbitrary world. Applied =>
 // nonce/epoch lemma (C06), no negative balance/stake part (C04), total of balances+stakes not increased
@@ -326,6 +369,7 @@ func H_Step_ReplenishStakeTx() { vStepAll(types.ReplenishStakeTx) }
 //verif:obligation C04.a.shortanswers tier=quick use=world bounds=world(S,T,G,F),in-block,arbitrary-tx-fields covers=applied,rejected
 //verif:obligation C05.a.shortanswers tier=quick use=world bounds=world(S,T,G,F),in-block,arbitrary-tx-fields covers=applied,rejected
 //verif:obligation C06.a.shortanswers tier=quick use=world bounds=world(S,T,G,F),in-block,arbitrary-tx-fields covers=applied,rejected
+//verif:obligation C10.c.shortanswers tier=thorough use=world bounds=world(S,T,G,F),in-block,arbitrary-tx-fields covers=applied,rejected
 //verif:obligation C12.b.shortanswers tier=quick use=world bounds=world(S,T,G,F),in-block,arbitrary-tx-fields covers=applied,rejected
 // One step with a SubmitShortAnswersTx: real per-type validator + real applyTxOnState from an arbitrary world. Applied =>
 // nonce/epoch lemma (C06), no negative balance/stake part (C04), total of balances+stakes not increased
@@ -336,6 +380,7 @@ func H_Step_SubmitShortAnswersTx() { vStepAll(types.SubmitShortAnswersTx) }
 //verif:obligation C04.a.longanswers tier=quick use=world,wvrf bounds=world(S,T,G,F),in-block,arbitrary-tx-fields covers=applied,rejected
 //verif:obligation C05.a.longanswers tier=quick use=world,wvrf bounds=world(S,T,G,F),in-block,arbitrary-tx-fields covers=applied,rejected
 //verif:obligation C06.a.longanswers tier=quick use=world,wvrf bounds=world(S,T,G,F),in-block,arbitrary-tx-fields covers=applied,rejected
+//verif:obligation C10.c.longanswers tier=thorough use=world,wvrf bounds=world(S,T,G,F),in-block,arbitrary-tx-fields covers=applied,rejected
 //verif:obligation C12.b.longanswers tier=quick use=world,wvrf bounds=world(S,T,G,F),in-block,arbitrary-tx-fields covers=applied,rejected
 // One step with a SubmitLongAnswersTx: real per-type validator + real applyTxOnState from an arbitrary world. Applied =>
 // nonce/epoch lemma (C06), no negative balance/stake part (C04), total of balances+stakes not increased
@@ -346,6 +391,7 @@ func H_Step_SubmitLongAnswersTx() { vStepAll(types.SubmitLongAnswersTx) }
 //verif:obligation C04.a.evidence tier=quick use=world bounds=world(S,T,G,F),in-block,arbitrary-tx-fields covers=applied,rejected
 //verif:obligation C05.a.evidence tier=quick use=world bounds=world(S,T,G,F),in-block,arbitrary-tx-fields covers=applied,rejected
 //verif:obligation C06.a.evidence tier=quick use=world bounds=world(S,T,G,F),in-block,arbitrary-tx-fields covers=applied,rejected
+//verif:obligation C10.c.evidence tier=thorough use=world bounds=world(S,T,G,F),in-block,arbitrary-tx-fields covers=applied,rejected
 //verif:obligation C12.b.evidence tier=quick use=world bounds=world(S,T,G,F),in-block,arbitrary-tx-fields covers=applied,rejected
 // One step with a EvidenceTx: real per-type validator + real applyTxOnState from an arbitrary world. Applied =>
 // nonce/epoch lemma (C06), no negative balance/stake part (C04), total of balances+stakes not increased
